@@ -753,6 +753,7 @@ func main() {
 		typedRoundTrip(depth, dl)
 		carriers(nFull, nRed, dl.Add(20*time.Second))
 		catalogue()
+		famSMStrings()
 	} else {
 		rep.Cap("C02_ONLY=extras: families (A), (B) and the catalogue were skipped")
 	}
@@ -842,6 +843,8 @@ func replay() {
 		}
 	case "catalogue":
 		catalogue()
+	case "sm-strings":
+		famSMStrings()
 	default:
 		if !replayExtra(probe.Kind, rp.Case) {
 			engine.HarnessError("unknown case kind %q", probe.Kind)
